@@ -781,7 +781,7 @@ fn probe_case(size: usize, id: String) -> Case {
                     c.fail(format!("{}: drop did not write Status := 0 exactly once: [{}]", line, canon_trace(&d)));
                 }
                 c.nontrivial = true;
-                format!("{} => ok version={} type={} cfglen={}", canon_trace(&tr0), v, dt, size - 0x100)
+                format!("{} => ok version={} type={} cfglen={}", canon_trace(&tr0), v, dt, size.wrapping_sub(0x100) as isize)
             }
             Ok(Err(e)) => {
                 accepted = false;
